@@ -45,6 +45,8 @@ def _a_function():
 # but is not iterable itself), an instance whose class disables iteration, a
 # function, a type
 NON_ITERABLES = [5, 2.5, None, list, _NoIter(), _a_function, dict, object]
+# items a sentinel-based implementation would trip over
+ODD_VALUES = [3, None, 0, False, "", (), None, 7]
 CTORS = {"tuple": tuple, "set": set, "sum": sum,
          "sorted_desc": lambda it: sorted(it, reverse=True)}
 MAX_POOL = 6
@@ -120,7 +122,8 @@ class C03(Property):
       kind = W.weighted("rkind", [(10, "finite"), (4, "chain"),
                                   (4, "periodic"), (2, "endless"),
                                   (2, "repeat_n"), (1, "lit_repeat_n"),
-                                  (1, "list"), (1, "range"), (1, "gen")])
+                                  (1, "list"), (1, "range"), (1, "gen"),
+                                  (2, "odd")])
       if kind == "finite":
         roots.append({"kind": kind, "len": W.choose("len", 13)})
       elif kind == "chain":
@@ -128,12 +131,14 @@ class C03(Property):
                                              W.choose("len", 6)]})
       elif kind == "periodic":
         roots.append({"kind": kind, "n": W.span("per", 1, 4)})
-      elif kind in ("repeat_n", "lit_repeat_n", "list", "range", "gen"):
+      elif kind in ("repeat_n", "lit_repeat_n", "list", "range", "gen",
+                    "odd"):
         roots.append({"kind": kind, "len": W.choose("len", 8)})
       else:
         roots.append({"kind": kind})
     ops = []
     n = W.span("nops", 1, 30 if W.chance("long", 1, 3) else 10)
+    odd = any(r["kind"] == "odd" for r in roots)
     for _ in range(n):
       op = W.weighted("op", [(6, "take"), (4, "peek"), (3, "skip"),
                              (3, "limit"), (2, "append_list"),
@@ -142,10 +147,15 @@ class C03(Property):
                              (5, "copy"), (2, "tee"), (3, "thub"),
                              (4, "hub_use"), (2, "next_it"), (2, "for"),
                              (1, "thub_scalar")])
+      if odd and op in ("map", "filter"):
+        op = "copy"       # items that are None / falsy / not numbers
       if op in ("take", "peek"):
+        ctor = W.weighted("ctor", [(8, None), (1, "tuple"), (1, "set"),
+                                   (1, "sum"), (1, "sorted_desc")])
+        if odd and ctor not in (None, "tuple"):
+          ctor = "tuple"      # items are not numbers / not comparable
         ops.append([op, W.weighted("cat", CATS_TAKE), W.choose("r", 8),
-                    W.weighted("ctor", [(8, None), (1, "tuple"), (1, "set"),
-                                        (1, "sum"), (1, "sorted_desc")])])
+                    ctor])
       elif op in ("skip", "limit"):
         ops.append([op, W.weighted("cat", CATS_CUT), W.choose("r", 8)])
       elif op == "append_list":
@@ -310,6 +320,9 @@ class _Ctx(object):
           from audiolazy import lazy_itertools
           real = lazy_itertools.repeat(77, r["len"])
         self.add("stream", real, HandleModel(ListSeq([77] * r["len"])))
+      elif r["kind"] == "odd":
+        vals = ODD_VALUES[:r["len"]]
+        self.add("stream", Stream(list(vals)), HandleModel(ListSeq(vals)))
       elif r["kind"] in ("list", "range", "gen"):
         vals = list(range(40, 40 + r["len"]))
         real = Stream(vals if r["kind"] == "list" else
